@@ -18,6 +18,22 @@ def make_version(rng, crates):
     return out
 
 
+def same_length_variant(rng, version):
+    """the same workspace with one type name replaced by a different name of equal length everywhere:
+    the generated text changes, its byte length does not"""
+    import re
+    out = dict(version)
+    for crate, text in version.items():
+        present = [w for w in TYPE_WORDS if re.search(r"\b%s\b" % w, text)]
+        rng.shuffle(present)
+        for w in present:
+            cands = [c for c in TYPE_WORDS if len(c) == len(w) and c != w and not re.search(r"\b%s\b" % c, text)]
+            if cands:
+                out[crate] = re.sub(r"\b%s\b" % w, rng.choice(cands), text)
+                return out
+    return out
+
+
 def write_tree(sc, root, version):
     shutil.rmtree(sc.path(root), ignore_errors=True)
     for crate, text in version.items():
@@ -36,7 +52,7 @@ def outputs_of(dirpath):
 
 def run(check):
     rng = check.rng
-    nh = 40 if check.thorough else 12
+    nh = 120 if check.thorough else 24
     maxlen = 6 if check.thorough else 4
     check.rule = ("histories of 2-%d runs of the real binary alternating between 2-4 versions of a 1-3 crate workspace "
                   "(types added / removed / renamed / moved), single-file (-o) and multi-file (-d) mode, all six "
@@ -49,9 +65,14 @@ def run(check):
         multi = (h // 6) % 2 == 0
         crates = rng.sample(["alpha", "beta-x", "gamma"], rng.randint(1, 3)) if multi else ["one"]
         versions = [make_version(rng, crates) for _ in range(rng.randint(2, 4))]
+        versions.append(same_length_variant(rng, versions[0]))      # equal output size, different bytes
         if multi and rng.random() < 0.5 and len(crates) > 1:
             versions.append({c: t for c, t in list(versions[0].items())[:-1]})     # a crate disappears
+        samelen = [i for i, v in enumerate(versions) if i and v != versions[0] and
+                   all(len(v.get(c, "")) == len(t) for c, t in versions[0].items())]
         hist = [0] + [rng.randrange(len(versions)) for _ in range(rng.randint(1, maxlen - 1))]
+        if samelen:
+            hist.insert(1, samelen[0])        # v0 -> its equal-length twin -> …
         if rng.random() < 0.7:
             hist.insert(rng.randint(1, len(hist)), hist[rng.randrange(len(hist))])     # an exact repetition
         check.saw((lang, multi, tuple(hist), json.dumps(versions, sort_keys=True)), nontrivial=len(set(hist)) < len(hist))
